@@ -245,6 +245,9 @@ func (r *Report) Finish(levelText string, assumptions []string) int {
 	}
 
 	evDir := filepath.Join(root, "evidence")
+	if d := os.Getenv("OFV_EVIDENCE_DIR"); d != "" {
+		evDir = d // scratch runs against variants must not touch the committed evidence
+	}
 	os.MkdirAll(filepath.Join(evDir, "replay"), 0o755)
 	// remove stale replay files of this property
 	if old, _ := filepath.Glob(filepath.Join(evDir, "replay", r.Prop+"-*.json")); old != nil {
